@@ -426,11 +426,19 @@ mod faults {
     use std::cell::RefCell;
     use std::io::{self, Read, Seek, SeekFrom, Write};
     use std::rc::Rc;
-    pub struct Shared { pub data: Vec<u8>, pub writes: usize, pub fail_at: usize, pub persistent: bool }
+    pub struct Shared { pub data: Vec<u8>, pub writes: usize, pub fail_at: usize, pub persistent: bool, pub reads: usize, pub read_fail_at: usize }
     #[derive(Clone)]
     pub struct Medium { pub sh: Rc<RefCell<Shared>>, pub pos: u64 }
     impl Read for Medium {
         fn read(&mut self, buf: &mut [u8]) -> io::Result<usize> {
+            {
+                let mut sh = self.sh.borrow_mut();
+                let k = sh.reads;
+                sh.reads += 1;
+                if k == sh.read_fail_at {
+                    return Err(io::Error::new(io::ErrorKind::Other, "injected read fault"));
+                }
+            }
             let sh = self.sh.borrow();
             let p = (self.pos as usize).min(sh.data.len());
             let n = buf.len().min(sh.data.len() - p);
@@ -498,7 +506,7 @@ fn replay_faults(_args: &[String]) -> i32 {
         for end_with_into_inner in [false, true] {
             // fault-free run: expected state and number of writes
             let run = |fail_at: usize, persistent: bool| -> (bool, Vec<u8>, usize) {
-                let sh = Rc::new(RefCell::new(Shared { data: base.clone(), writes: 0, fail_at, persistent }));
+                let sh = Rc::new(RefCell::new(Shared { data: base.clone(), writes: 0, fail_at, persistent, reads: 0, read_fail_at: usize::MAX }));
                 let medium = Medium { sh: sh.clone(), pos: 0 };
                 let all_ok = (|| -> std::io::Result<()> {
                     let mut p = Package::open(medium)?;
@@ -711,6 +719,72 @@ fn replay_dangling(_args: &[String]) -> i32 {
     0
 }
 
+/// C15 probe (reads): `readfaults` -- the medium fails read number k once.  Opening the package
+/// and reading its state must either report an error or yield exactly the state that is on the
+/// medium; a panic counts as a violation.
+fn replay_readfaults(_args: &[String]) -> i32 {
+    use faults::{Medium, Shared};
+    use msi::{Column, Insert, Select};
+    use std::cell::RefCell;
+    use std::rc::Rc;
+    panic::set_hook(Box::new(|_| {}));
+    let base: Vec<u8> = {
+        let mut p = Package::create(PackageType::Installer, Cursor::new(Vec::new())).unwrap();
+        p.create_table("T", vec![Column::build("K").primary_key().int16(), Column::build("S").nullable().string(32)]).unwrap();
+        p.insert_rows(Insert::into("T").row(vec![Value::Int(1), Value::Str("one".into())]).row(vec![Value::Int(2), Value::Str("two".into())])).unwrap();
+        // a pool larger than the container's 8 KiB stream buffer: its later chunks are read separately
+        p.create_table("Big", vec![Column::build("K").primary_key().int16(), Column::build("S").nullable().string(32)]).unwrap();
+        let mut q = Insert::into("Big");
+        for i in 0..3000 { q = q.row(vec![Value::Int(i), Value::Str(format!("string number {i}"))]); }
+        p.insert_rows(q).unwrap();
+        p.summary_info_mut().set_title("base");
+        p.into_inner().unwrap().into_inner()
+    };
+    type St = (Option<String>, Vec<String>, Vec<(i32, String)>);
+    let run = |read_fail_at: usize| -> (Result<St, String>, usize) {
+        let sh = Rc::new(RefCell::new(Shared { data: base.clone(), writes: 0, fail_at: usize::MAX, persistent: false, reads: 0, read_fail_at }));
+        let medium = Medium { sh: sh.clone(), pos: 0 };
+        let r = (|| -> Result<St, String> {
+            let mut p = Package::open(medium).map_err(|e| format!("open: {e}"))?;
+            let title = p.summary_info().title().map(|s| s.to_string());
+            let mut tables: Vec<String> = p.tables().map(|t| t.name().to_string()).collect();
+            tables.sort();
+            let mut rows = Vec::new();
+            for r in p.select_rows(Select::table("T")).map_err(|e| format!("select: {e}"))? {
+                let k = match r[0] { Value::Int(n) => n, _ => -1 };
+                let s = match &r[1] { Value::Str(s) => s.clone(), _ => String::new() };
+                rows.push((k, s));
+            }
+            // the last rows of the big table: their strings sit at the end of the pool
+            for r in p.select_rows(Select::table("Big")).map_err(|e| format!("select Big: {e}"))? {
+                let k = match r[0] { Value::Int(n) => n, _ => -1 };
+                if k >= 2990 {
+                    let s = match &r[1] { Value::Str(s) => s.clone(), _ => String::new() };
+                    rows.push((k, s));
+                }
+            }
+            Ok((title, tables, rows))
+        })();
+        let n = sh.borrow().reads;
+        (r, n)
+    };
+    let (want, nreads) = run(usize::MAX);
+    let want = match want { Ok(s) => s, Err(e) => { println!("REPLAY family=readfaults verdict=ok (fault-free run failed: {e}; probe not applicable)"); return 0; } };
+    for k in 0..nreads {
+        let res = panic::catch_unwind(panic::AssertUnwindSafe(|| run(k)));
+        match res {
+            Err(_) => { println!("REPLAY family=readfaults fault=read#{k} verdict=VIOLATED (panic)"); return 1; }
+            Ok((Ok(got), _)) if got != want => {
+                println!("REPLAY family=readfaults fault=read#{k} (of {nreads}) open and every read returned Ok, but the state read is {got:?} instead of {want:?} verdict=VIOLATED");
+                return 1;
+            }
+            _ => {}
+        }
+    }
+    println!("REPLAY family=readfaults verdict=ok ({nreads} read indices: an error or the true state)");
+    0
+}
+
 fn main() {
     let args: Vec<String> = std::env::args().skip(1).collect();
     if args.is_empty() {
@@ -729,6 +803,7 @@ fn main() {
         "rowlimit" => replay_rowlimit(&args[1..]),
         "faults" => replay_faults(&args[1..]),
         "bom" => replay_bom(&args[1..]),
+        "readfaults" => replay_readfaults(&args[1..]),
         "zerorc" => replay_zerorc(&args[1..]),
         "dangling" => replay_dangling(&args[1..]),
         _ => 2,
